@@ -340,6 +340,9 @@ func (b *BaseType) UnmarshalJSON(data []byte) error {
 	if err != nil {
 		return err
 	}
+	if !isAtomicType(bt.Type) {
+		return fmt.Errorf("non atomic type %q in <base-type>", bt.Type)
+	}
 
 	if bt.Enum != nil {
 		// 'enum' is a list or a single element representing a list of exactly one element
@@ -347,7 +350,13 @@ func (b *BaseType) UnmarshalJSON(data []byte) error {
 		case []interface{}:
 			// it's an OvsSet
 			oSet := bt.Enum.([]interface{})
-			innerSet := oSet[1].([]interface{})
+			if len(oSet) != 2 || oSet[0] != "set" {
+				return fmt.Errorf("invalid enum in <base-type> %s", string(data))
+			}
+			innerSet, ok := oSet[1].([]interface{})
+			if !ok {
+				return fmt.Errorf("invalid enum in <base-type> %s", string(data))
+			}
 			b.Enum = make([]interface{}, len(innerSet))
 			copy(b.Enum, innerSet)
 		default:
@@ -449,6 +458,9 @@ func (c *ColumnType) UnmarshalJSON(data []byte) error {
 	if err != nil {
 		return err
 	}
+	if colType.Key == nil {
+		return fmt.Errorf("missing key in <type> %s", string(data))
+	}
 	c.Key = colType.Key
 	c.Value = colType.Value
 	c.min = colType.Min
@@ -546,6 +558,9 @@ func (c *ColumnSchema) UnmarshalJSON(data []byte) error {
 		return fmt.Errorf("cannot parse column object %s", err)
 	}
 
+	if colJSON.Type == nil {
+		return fmt.Errorf("cannot parse column object: missing type in %s", string(data))
+	}
 	c.ephemeral = colJSON.Ephemeral
 	c.mutable = colJSON.Mutable
 	c.TypeObj = colJSON.Type
